@@ -18,12 +18,14 @@ import (
 	slipelliptic "github.com/wollac/iota-crypto-demo/pkg/slip10/elliptic"
 	"pgregory.net/rapid"
 
+	"verifharness/fc"
 	"verifharness/h"
 	"verifharness/ref/secp"
 	ref "verifharness/ref/slip10"
 )
 
 func TestMain(m *testing.M) {
+	h.FirstCallsChild(fc.Slip10()) // never returns in a first-call child process
 	for _, c := range []*secp.Curve{secp.K1, secp.P256} {
 		if err := c.SelfCheck(); err != nil {
 			fmt.Println("VERIF-INFRA reference self-check failed:", err)
@@ -666,3 +668,6 @@ func TestScalars(t *testing.T) {
 func FuzzGenDerive(f *testing.F) {
 	h.FuzzSub(f, h.Sub[deriveCase]{Prop: "C02", Name: "derive", Gen: genDerive, Check: checkDerive})
 }
+
+// which public entry point is called first in a process (and by how many goroutines at once)
+func TestFirstCalls(t *testing.T) { h.FirstCallsSub(t, "C02", fc.Slip10(), 6) }
